@@ -224,6 +224,7 @@ func C06(ctx *core.Ctx, r *core.Report) {
 	c06SiblingOrder(ctx, r)
 	c06BuilderFresh(ctx, r)
 	c06AppendKeepsOrder(ctx, r)
+	r.Count("instances:textual-order-kept(sort calls examined)", textualOrderKept(ctx, r, scopeFuncs(ctx, "meta")))
 	c06EscapeOnlyInDoubleQuotes(ctx, r)
 }
 
